@@ -89,7 +89,8 @@ func linkGrid(rng *rand.Rand, full bool) []attrCase {
 // forcedGrid: the C12 generator: crossorigin and sandbox
 func forcedGrid(rng *rand.Rand, full bool) []attrCase {
 	var cases []attrCase
-	toks := []string{"allow-forms", "allow-scripts", "allow-same-origin", "allow-modals", "allow-popups", "bogus", "ALLOW-FORMS", "allow-downloads", "allow-top-navigation", "allow-presentation"}
+	toks := []string{"allow-forms", "allow-scripts", "allow-same-origin", "allow-modals", "allow-popups", "bogus", "ALLOW-FORMS", "allow-downloads", "allow-top-navigation", "allow-presentation",
+		"Allow-Scripts", "allow-scripts", "ALLOW-SAME-ORIGIN", "Allow-Forms", "allow-forms", "Allow-Modals", "allow-Popups"}
 	n := 12
 	if full {
 		n = 80
